@@ -5,7 +5,7 @@ rows=[]
 for d in sorted(glob.glob('/verif/seeded/C*')):
     try: m=json.load(open(d+'/meta.json'))
     except Exception: continue
-    first='first run' if m['first_run_of_my_check'].startswith('detected') else ('no longer breaks the property (tree repaired)' if m['first_run_of_my_check'].startswith('not applicable') else 'after strengthening')
+    first='first run' if m['first_run_of_my_check'].startswith('detected') else ('no longer breaks the property (tree repaired)' if m['first_run_of_my_check'].startswith('not applicable') else ('NOT caught' if m['first_run_of_my_check'].startswith('missed and left') else 'after strengthening'))
     if m.get('invalidated_by'): first+='; made harmless by fix '+m['invalidated_by']
     rows.append((m['label'],m['breaks_property'],", ".join(m['changed_files']),m['needs_to_manifest'],m['detected_by'],first,m['first_run_of_my_check'],bool(m.get('invalidated_by'))))
 print("| seeded change | files | needs to manifest | caught by | when |")
@@ -18,6 +18,6 @@ print()
 for r in rows:
     if not r[6].startswith('detected'):
         print("* **%s** — %s"%(r[0],r[6]))
-n=len(rows); f=sum(1 for r in rows if r[6].startswith('detected')); inv=sum(1 for r in rows if r[7]); na=sum(1 for r in rows if r[6].startswith('not applicable'))
+n=len(rows); f=sum(1 for r in rows if r[6].startswith('detected')); inv=sum(1 for r in rows if r[7]); na=sum(1 for r in rows if r[6].startswith('not applicable')); left=sum(1 for r in rows if r[6].startswith('missed and left'))
 print()
-print("%d seeded changes, %d caught by the check as it was when the change arrived, %d only after the check was strengthened, %d never run because the scenario written for it found the same failure on the unchanged tree; %d of the 100 were later made harmless by the repair of a genuine defect they leaned on; the %d that still break their property are reported on every run of the quick tier (tools/seedall.sh) and the unchanged tree stays silent."%(n,f,n-f-na,na,inv,n-inv))
+print("%d seeded changes: %d caught by the check as it was when the change arrived, %d only after the check was strengthened, %d not caught and left (outside the harness, see its row), %d never run because the scenario written for it found the same failure on the unchanged tree. %d were later made harmless by the repair of a genuine defect they leaned on. The %d that break their property and are within reach are reported on every run of the quick tier (tools/seedall.sh is the regression over all patches) and the unchanged tree stays silent."%(n,f,n-f-na-left,left,na,inv,n-inv-left))
